@@ -128,11 +128,22 @@ func (s *Store) persist(higher Snapshot, persistOptions StorePersistOptions) (
 	}
 
 	verifAt("store.persist.begin", s)
-	fref, file, err := s.startOrReuseFile()
+	fref, file, startedFile, err := s.startOrReuseFile()
 	if err != nil {
 		return nil, err
 	}
 	defer fref.DecRef()
+
+	// A file started by this round holds nothing but a header until
+	// the round's footer is written, and a directory whose only data
+	// file has no footer cannot be opened: do not leave such a file
+	// behind when the round fails or is aborted.
+	onError := func(err error) (Snapshot, error) {
+		if startedFile {
+			s.removeFileOnClose(fref)
+		}
+		return nil, err
+	}
 
 	// TODO: Pre-allocate file space up front?
 
@@ -147,21 +158,21 @@ func (s *Store) persist(higher Snapshot, persistOptions StorePersistOptions) (
 	// Recursively write out all the segments of the snapshot.
 	err = s.persistSegments(ss, footer, file, fref)
 	if err != nil {
-		return nil, err
+		return onError(err)
 	}
 
 	verifAt("store.persist.segments", s)
 	// Recursively load all segments of the newly persisted footer.
 	err = footer.loadSegments(s.options, fref)
 	if err != nil {
-		return nil, err
+		return onError(err)
 	}
 
 	// Recursively persist all footers of top-level and child collections.
 	err = s.persistFooter(file, footer, persistOptions)
 	if err != nil {
 		footer.DecRef()
-		return nil, err
+		return onError(err)
 	}
 
 	verifAt("store.persist.footer", s)
@@ -265,7 +276,8 @@ func (s *Store) persistSegments(ss *segmentStack, footer *Footer,
 
 // startOrReuseFile either creates a new file or reuses the file from
 // the last/current footer.
-func (s *Store) startOrReuseFile() (fref *FileRef, file File, err error) {
+func (s *Store) startOrReuseFile() (
+	fref *FileRef, file File, started bool, err error) {
 	s.m.Lock()
 	defer s.m.Unlock()
 
@@ -277,7 +289,7 @@ func (s *Store) startOrReuseFile() (fref *FileRef, file File, err error) {
 			fref := slocs[0].mref.fref
 			file := fref.AddRef()
 
-			return fref, file, nil
+			return fref, file, false, nil
 		}
 
 		// The top-level collection has no persisted segments, but a
@@ -285,11 +297,13 @@ func (s *Store) startOrReuseFile() (fref *FileRef, file File, err error) {
 		if fref := s.footer.childFileRef(); fref != nil {
 			file := fref.AddRef()
 
-			return fref, file, nil
+			return fref, file, false, nil
 		}
 	}
 
-	return s.startFileLOCKED()
+	fref, file, err = s.startFileLOCKED()
+
+	return fref, file, true, err
 }
 
 func (s *Store) startFileLOCKED() (*FileRef, File, error) {
